@@ -371,11 +371,11 @@ func (b *TB) Eq(x, y *Term) *Term {
 		if d := b.Sub(x, y); d.IsConst() {
 			return b.BoolC(d.val.Sign() == 0)
 		}
-		// ite(c, k1, k2) == k  with constants
-		if y.IsConst() && x.op == "ite" && x.args[1].IsConst() && x.args[2].IsConst() {
+		// ite-tree with constant leaves compared with a constant: distribute
+		if y.IsConst() && constIteTree(x, 24) {
 			return b.Ite(x.args[0], b.Eq(x.args[1], y), b.Eq(x.args[2], y))
 		}
-		if x.IsConst() && y.op == "ite" && y.args[1].IsConst() && y.args[2].IsConst() {
+		if x.IsConst() && constIteTree(y, 24) {
 			return b.Ite(y.args[0], b.Eq(y.args[1], x), b.Eq(y.args[2], x))
 		}
 	}
@@ -383,6 +383,24 @@ func (b *TB) Eq(x, y *Term) *Term {
 		x, y = y, x
 	}
 	return b.mk("=", BoolSort, x, y)
+}
+
+// constIteTree: t is an if-then-else whose leaves are all constants (at most
+// budget of them).
+func constIteTree(t *Term, budget int) bool {
+	if t.op != "ite" {
+		return false
+	}
+	n := 0
+	var walk func(t *Term) bool
+	walk = func(t *Term) bool {
+		if t.op == "ite" {
+			return walk(t.args[1]) && walk(t.args[2])
+		}
+		n++
+		return t.IsConst() && n <= budget
+	}
+	return walk(t)
 }
 
 func (b *TB) Ne(x, y *Term) *Term { return b.Not(b.Eq(x, y)) }
@@ -682,6 +700,12 @@ func (b *TB) Cmp(op string, x, y *Term) *Term {
 	if x == y {
 		return b.BoolC(op == "bvule" || op == "bvsle")
 	}
+	if y.IsConst() && constIteTree(x, 24) {
+		return b.Ite(x.args[0], b.Cmp(op, x.args[1], y), b.Cmp(op, x.args[2], y))
+	}
+	if x.IsConst() && constIteTree(y, 24) {
+		return b.Ite(y.args[0], b.Cmp(op, x, y.args[1]), b.Cmp(op, x, y.args[2]))
+	}
 	if op == "bvult" && y.IsConst() && y.val.Sign() == 0 {
 		return b.False()
 	}
@@ -870,7 +894,12 @@ func containsOtherBound(t *Term, vars []*Term) bool {
 // ---- Substitution (used to instantiate spec bodies / quantifiers)
 
 func (b *TB) Subst(t *Term, m map[*Term]*Term) *Term {
-	cache := map[int]*Term{}
+	return b.SubstC(t, m, map[int]*Term{})
+}
+
+// SubstC is Subst with a caller-provided memo table (shared across calls
+// that use the same substitution).
+func (b *TB) SubstC(t *Term, m map[*Term]*Term, cache map[int]*Term) *Term {
 	var rec func(t *Term) *Term
 	rec = func(t *Term) *Term {
 		if r, ok := m[t]; ok {
